@@ -993,6 +993,9 @@ def run(ctx: core.Ctx):
                                  seed=ctx.seed + 1, timeout=3000),
         "Builder untyped": dict(module="Builder", cfg="Builder_untyped.cfg", env=env, workers=4, timeout=3000),
         "Builder carry": dict(module="Builder", cfg="Builder_carry.cfg", env=env, workers=3, timeout=3000),
+        # straight-line traces in which every op call has a literal operand, over the binary / variadic / ternary operators, literal
+        # first and literal last, int / float / bool / list literals beside INT64 and FLOAT values (promotion through _cast_inputs)
+        "Builder lits": dict(module="Builder", cfg="Builder_lits.cfg", env=env, workers=4, timeout=3000),
         "Builder design": dict(module="Builder", cfg="Builder_design.cfg", env=env, workers=2, timeout=3000),
         "Builder vacuity": dict(module="Builder", cfg="Builder_vacuity.cfg", env=env, workers=1, timeout=1500),
         "ModuleTree exhaustive": dict(module="ModuleTree", cfg="ModuleTree_quick.cfg" if q else "ModuleTree_thorough.cfg", workers=2 if q else w, timeout=3000),
@@ -1015,7 +1018,7 @@ def run(ctx: core.Ctx):
     # ---------------- part 1: traces
     seen = set()
     traces = []
-    for label in ("Builder exhaustive", "Builder untyped", "Builder carry", "Builder simulate"):
+    for label in ("Builder exhaustive", "Builder untyped", "Builder carry", "Builder lits", "Builder simulate"):
         for c in _cases(res[label], "CASE"):
             key = json.dumps(c["prog"], sort_keys=True)
             if key not in seen:
@@ -1047,13 +1050,13 @@ def run(ctx: core.Ctx):
     if q and len(traces) > 2600:
         # keep the cases the implementation model marks as deviating and every case in which a literal meets an untyped
         # value inside a subgraph (helper nodes created in an inner scope), sample the rest
-        issharp = {id(c): untyped_literal_in_subgraph(c) or literal_carried(c) for c in traces}
+        issharp = {id(c): untyped_literal_in_subgraph(c) or literal_carried(c) or c["src"] == "Builder lits" for c in traces}
         sharp = [c for c in traces if not c["why"] and issharp[id(c)]]
         dev = [c for c in traces if c["why"]]
         rest = [c for c in traces if not c["why"] and not issharp[id(c)]]
         for l in (sharp, dev, rest):
             rng.shuffle(l)
-        sharp, dev = sharp[:1500], dev[:500]
+        sharp, dev = sharp[:1800], dev[:500]
         traces = dev + sharp + rest[: max(0, 2600 - len(dev) - len(sharp))]
     ctx.set("traces_with_untyped_literal_in_subgraph", sum(1 for c in traces if untyped_literal_in_subgraph(c)))
     ctx.set("traces_with_literal_loop_carried_operand", sum(1 for c in traces if literal_carried(c)))
